@@ -102,6 +102,8 @@ def app_op(ngroups, lease=True, traits=True, demand_hi=8):
 def op_strategies(nparts, ngroups, profile):
     """Map op kind -> strategy producing that op as a list."""
     idx = st.integers(0, 63)
+    ops_app_e1 = app_op(ngroups, lease=False, traits=False,
+                        demand_hi=profile.get('demand_hi', 8))
     ops = {
         'app': app_op(ngroups, lease=profile.get('lease', True),
                       traits=profile.get('traits', True),
@@ -150,6 +152,22 @@ def op_strategies(nparts, ngroups, profile):
         'freezeflip': st.tuples(idx, st.lists(idx, min_size=1, max_size=2))
         .map(lambda t: ['macro', [['freeze', t[0], t[1]],
                                   ['unfreeze', t[0]]]]),
+        # macro: a renewal is requested early, while the lease still runs
+        'renewearly': st.tuples(idx, st.sampled_from([0, 60, 3600]))
+        .map(lambda t: ['macro', [['cycle'], ['adv', t[1]] if t[1] else
+                                  ['tick'], ['renew', t[0]], ['cycle'],
+                                  ['renew', t[0]], ['cycle']]]),
+        # macro: two instances of the shape of running ones arrive with a
+        # high priority in the same cycle
+        'clone2': st.tuples(idx, idx, st.sampled_from([50, 100]))
+        .map(lambda t: ['macro', [['clone', t[0], t[2], [0, 0, 0]],
+                                  ['clone', t[1], t[2], [0, 0, 0]],
+                                  ['cycle']]]),
+        # macro: a server is frozen, work goes on, it is un-frozen
+        'freezework': st.tuples(idx, ops_app_e1, idx)
+        .map(lambda t: ['macro', [['freeze', t[0], []], t[1], ['cycle'],
+                                  ['rm', t[2]], ['cycle'],
+                                  ['unfreeze', t[0]]]]),
         # macro: the reboot time of the servers passes and a renewal is
         # requested for a running instance
         'renewold': st.tuples(st.sampled_from([3 * DAY, 22 * DAY, 22 * DAY]),
@@ -192,7 +210,8 @@ def flatten(ops):
 DEFAULT_WEIGHTS = {
     'app': 10, 'clone': 2, 'rm': 2, 'prio': 1, 'move': 1, 'srv': 1, 'rmsrv': 1,
     'readd': 1, 'down': 2, 'up': 2, 'downseq': 0, 'freezeflip': 0,
-    'orphanbl': 0, 'orphanrm': 0, 'stalemark': 0, 'renewold': 0, 'freeze': 1, 'unfreeze': 1, 'bl': 1,
+    'orphanbl': 0, 'orphanrm': 0, 'stalemark': 0, 'renewearly': 0,
+    'clone2': 0, 'freezework': 0, 'renewold': 0, 'freeze': 1, 'unfreeze': 1, 'bl': 1,
     'renew': 1, 'idg': 1, 'rmidg': 1, 'strat': 1, 'adv': 2, 'adv_ret': 1,
     'tick': 1, 'cycle': 8,
 }
